@@ -325,10 +325,13 @@ Section Ops.
 
   Theorem hstep_safe : forall o, safe (fun x => hstep P apply s x o).
   Proof.
-    intros [pfx arg|pfx arg|nw view]; cbn [hstep].
+    intros [pfx arg|pfx arg|nw view|pfx arg|pfx arg|]; cbn [hstep].
     - apply hadd_safe.
     - apply hremove_safe.
     - apply hreplace_safe.
+    - intros x W. split; [assumption|apply keeps_refl].
+    - intros x W. split; [assumption|apply keeps_refl].
+    - intros x W. split; [assumption|apply keeps_refl].
   Qed.
 End Ops.
 
